@@ -5,12 +5,21 @@ SPEC_PART = dict(
           # the DRIFT_LIMIT debug assertion (known finding C14-freq-drift-limit): the op that panics in debug builds is not
           # compared with the model (mask), the rest of the case is; thorough tier only (the case takes ~40 s)
           dict(family="freq", focus="drift-image", oracles=[], profiles=["debug", "release"], mask=[0, 2, 3, 12], n_quick=0, n_thorough=1,
-               panic_is_violation=True)],
-    trusted=["Frequent Items: the modelled panic sites of deserialize are the shift / multiplication by lg_max_map_size, the assertion "
+               panic_is_violation=True),
+          # mutated String images (length fields at 0, 1, remaining, remaining+1, 2^30-1, 2^31, 2^32-1; invalid UTF-8;
+          # truncation; flips) and the boundary images read as u64 sketches
+          dict(family="freq", focus="malformed-generic", oracles=["no_panic", "prop_generic"], profiles=["debug", "release"],
+               mask=list(range(0, 13)) + list(range(20, 26)) + list(range(40, 53)), n_quick=12, n_thorough=200, panic_is_violation=True)],
+    trusted=["Frequent Items: the Coq codec model and the theorems of this part are for i64 items only; u64 items are answered by the same model (same bits, same hash, same image bytes: harness ops 40..52), String images (u32 length + UTF-8 per item) are covered by crate-only checks: round trip equal on every accessor / row / re-serialized pairs, no panic, allocation proportional to the input",
+             "Frequent Items: the modelled panic sites of deserialize are the shift / multiplication by lg_max_map_size, the assertion "
              "lg_cur <= lg_max, the purge path of the update loop; u64 overflow of the loaded counters is excluded by the validated "
              "inequality offset + sum(counts) <= stream_weight rather than modelled as a panic",
              "Frequent Items: size_of one table slot = 26 bytes (Option<i64> + u64 + u16) in the model's allocation prediction"],
-    assumptions=["Frequent Items: usize = 64 bits"],
+    assumptions=["Frequent Items: usize = 64 bits",
+                 "Frequent Items: operations applied to an accepted image keep the stream weight below 2^64 (the documented precondition "
+                 "'total stream weight fits u64'): an image whose stream_weight is already near u64::MAX is accepted (Ok) and leaves no room - "
+                 "update(1) on it overflows (debug: panic at sketch.rs stream_weight += count, release: wraps) while the model (unbounded N) "
+                 "says Ok; the generator skips updates and merges there (use_value_ops: only when 2*(weight + 9n) < 2^64)"],
     covers="freq (i64 items): fc_deserialize is total and never Stuck for ANY bytes and hashes; Ok => well-formed (lg sizes in range, "
            "counters distinct / positive / within capacity, offset + counters <= weight < 2^64, probe invariant, table = the announced "
            "2^lg_cur slots) and hence round-trips; the two vectors are bounded by the input, a rejected image builds nothing. Tie: "
